@@ -4,6 +4,7 @@ import (
 	"context"
 	"errors"
 	"strings"
+	"sync/atomic"
 	"time"
 
 	"github.com/mimecast/dtail/internal"
@@ -29,6 +30,9 @@ type Aggregate struct {
 	query *mapr.Query
 	// The mapr log format parser
 	parser logformat.Parser
+	// Number of file read commands which may still deliver a lines channel
+	// plus the number of channels currently being re-queued.
+	pending int32
 }
 
 // NewAggregate return a new server side aggregator.
@@ -75,6 +79,17 @@ func NewAggregate(queryStr string) (*Aggregate, error) {
 		query:       query,
 		parser:      logParser,
 	}, nil
+}
+
+// ReaderStarted tells the aggregation that a file read command was accepted
+// which will deliver its lines via NextLinesCh.
+func (a *Aggregate) ReaderStarted() {
+	atomic.AddInt32(&a.pending, 1)
+}
+
+// ReaderDone tells the aggregation that a file read command is finished.
+func (a *Aggregate) ReaderDone() {
+	atomic.AddInt32(&a.pending, -1)
 }
 
 // Shutdown the aggregation engine.
@@ -127,7 +142,8 @@ func (a *Aggregate) nextLine() (line *line.Line, ok bool, noMoreChannels bool) {
 			select {
 			case a.linesCh = <-a.NextLinesCh:
 			default:
-				noMoreChannels = true
+				// Only done when nobody is about to queue another channel.
+				noMoreChannels = atomic.LoadInt32(&a.pending) == 0
 			}
 		}
 	default:
@@ -135,7 +151,11 @@ func (a *Aggregate) nextLine() (line *line.Line, ok bool, noMoreChannels bool) {
 		select {
 		case newLinesCh := <-a.NextLinesCh:
 			oldLinesCh := a.linesCh
-			go func() { a.NextLinesCh <- oldLinesCh }()
+			atomic.AddInt32(&a.pending, 1)
+			go func() {
+				a.NextLinesCh <- oldLinesCh
+				atomic.AddInt32(&a.pending, -1)
+			}()
 			a.linesCh = newLinesCh
 		default:
 			// No new lines channel found.
